@@ -442,6 +442,37 @@ fn run(e: &Engine) {
         }
     }
     e.fixed("every-defined-suffix", fixed, check);
+    // bounded-exhaustive: EVERY letter string up to a length as the suffix of every quantity (a defined
+    // one must scale by the table's factor, any other must be rejected); longer strings for the two
+    // quantities with the most multiplier prefixes in the thorough tier
+    const LETTERS: &[u8] = b"ABCDEFGHIJKLMNOPQRSTUVWXYZ";
+    let all_len = if cfg!(debug_assertions) { e.tier.pick(3usize, 4) } else { e.tier.pick(5usize, 6) };
+    let part = crate::gen::enumstr::Partitioned { alpha: LETTERS, max_len: all_len, prefix_len: 2 };
+    let partr = &part;
+    e.enumerate::<Case, _, _>(
+        "every-letter-string-as-suffix",
+        part.parts() * ALL_Q.len() as u64,
+        move |p, f| {
+            let q = ALL_Q[(p / partr.parts()) as usize];
+            partr.run(p % partr.parts(), &mut |s| s.is_empty() || f(Case::Plain { q, single: false, lit: "1".into(), suffix: Some(String::from_utf8_lossy(s).into_owned()) }))
+        },
+        check,
+    );
+    if !cfg!(debug_assertions) {
+        let long_len = e.tier.pick(6usize, 7);
+        let long = crate::gen::enumstr::Partitioned { alpha: LETTERS, max_len: long_len, prefix_len: 3 };
+        let longr = &long;
+        let qs = [Q::ElectricPotential, Q::Frequency];
+        e.enumerate::<Case, _, _>(
+            "every-longer-letter-string-as-suffix-volt-hertz",
+            long.parts() * qs.len() as u64,
+            move |p, f| {
+                let q = qs[(p / longr.parts()) as usize];
+                longr.run(p % longr.parts(), &mut |s| s.len() < long_len || f(Case::Plain { q, single: false, lit: "1".into(), suffix: Some(String::from_utf8_lossy(s).into_owned()) }))
+            },
+            check,
+        );
+    }
     e.proptest("suffix-conversions", e.tier.pick(1_000_000, 20_000_000), case_strategy, check);
     e.require_fraction("suffix with multiplier", "defined suffix", 0.4);
     e.require_fraction("mixed-case suffix", "defined suffix", 0.3);
